@@ -35,7 +35,7 @@ static vh_tctx vh_sthr[VH_MAX_STHR];
 static int vh_nsthr;
 static int vh_nes = 1;
 static int vh_watchdog_s = 20;
-static int vh_cfg_perturb = 1, vh_cfg_vclock = 0;
+static int vh_cfg_perturb = 1, vh_cfg_vclock = 0, vh_cfg_shared = 0;
 static uint64_t vh_cfg_seed = 1;
 static ABT_xstream vh_xs[16];
 static ABT_pool vh_pools[16];
@@ -115,6 +115,8 @@ static void vh_load_scenario(const char *path)
             vh_cfg_perturb = v;
         else if (sscanf(line, "VCLOCK %d", &v) == 1)
             vh_cfg_vclock = v;
+        else if (sscanf(line, "SHARED %d", &v) == 1)
+            vh_cfg_shared = v;
         else if (!strncmp(line, "THREAD ", 7)) {
             vh_tctx *c = &vh_sthr[vh_nsthr];
             memset(c, 0, sizeof(*c));
@@ -150,11 +152,25 @@ static int vh_scenario_main(int argc, char **argv)
         VH_DIE("ABT_init failed");
     ABT_xstream_self(&vh_xs[0]);
     ABT_xstream_get_main_pools(vh_xs[0], 1, &vh_pools[0]);
+    ABT_pool shared_pool = ABT_POOL_NULL;
+    if (vh_cfg_shared && vh_nes > 2) {
+        /* SHARED 1: the secondary streams all serve one MPMC pool, so a ULT that blocks is usually resumed on
+         * another stream than the one it blocked on (the primary stream keeps its own pool) */
+        ret = ABT_pool_create_basic(ABT_POOL_FIFO, ABT_POOL_ACCESS_MPMC, ABT_TRUE, &shared_pool);
+        if (ret != ABT_SUCCESS)
+            VH_DIE("pool_create_basic failed");
+    }
     for (i = 1; i < vh_nes; i++) {
-        ret = ABT_xstream_create(ABT_SCHED_NULL, &vh_xs[i]);
+        if (shared_pool != ABT_POOL_NULL) {
+            ret = ABT_xstream_create_basic(ABT_SCHED_BASIC, 1, &shared_pool, ABT_SCHED_CONFIG_NULL, &vh_xs[i]);
+            vh_pools[i] = shared_pool;
+        } else {
+            ret = ABT_xstream_create(ABT_SCHED_NULL, &vh_xs[i]);
+            if (ret == ABT_SUCCESS)
+                ABT_xstream_get_main_pools(vh_xs[i], 1, &vh_pools[i]);
+        }
         if (ret != ABT_SUCCESS)
             VH_DIE("xstream_create failed");
-        ABT_xstream_get_main_pools(vh_xs[i], 1, &vh_pools[i]);
     }
     vh_setup_objects();
     vh_trace_init(vh_cfg_seed, vh_cfg_perturb, vh_cfg_vclock);
